@@ -6,7 +6,7 @@ import os.path
 import re
 import sys
 import time
-from contextlib import ContextDecorator
+from contextlib import ContextDecorator, contextmanager, suppress
 from functools import wraps
 from pathlib import Path
 
@@ -54,6 +54,25 @@ class timer(ContextDecorator):
         self.end = time.perf_counter()
         self.duration = self.end - self.start
         self.logger.debug(self.msg, self.duration)
+
+
+@contextmanager
+def atomic_write(path):
+    """Open a file for writing that replaces `path` only once completely written.
+
+    The content is written to a temporary file next to `path` which is then moved
+    into place, so an interrupted write never leaves a truncated file behind.
+    """
+    path = str(path)
+    tmp_path = "{}.tmp{}".format(path, os.getpid())
+    try:
+        with open(tmp_path, "w") as tmp_file:
+            yield tmp_file
+        os.replace(tmp_path, path)
+    except BaseException:
+        with suppress(OSError):
+            os.remove(tmp_path)
+        raise
 
 
 def ensure_dir(path):
